@@ -25,11 +25,7 @@ func VerifC17FlagTravels() {
 		made++
 		return &encryption.LocalEncryptionHandler{}, nil
 	})
-	dir := vTempDir()
 	def := vChoose(2) == 1
-	a := vMkFSMServer(dir)
-	a.config.Streams.Encryption = def
-	vRaft = &vRaftStand{logs: map[uint64]*raft.Log{}, first: 0}
 	want := def
 	var cfg *proto.StreamConfig
 	switch vChoose(3) {
@@ -46,6 +42,37 @@ func VerifC17FlagTravels() {
 			vCover("server-default-yes")
 		}
 	}
+	srv := vTravel(cfg, func(x *Server) { x.config.Streams.Encryption = def })
+	p := srv.metadata.GetPartition("a", 0)
+	vAssert(p != nil, "the partition exists")
+	if p == nil {
+		return
+	}
+	if want {
+		vAssert(p.encryptionHandler != nil, "the partition of an encrypted stream (by its own configuration or by the server-wide default) seals what it stores")
+		vAssert(made > 0, "the encryption handler was built")
+	} else {
+		vAssert(p.encryptionHandler == nil, "the partition of a stream that is not encrypted stores values as published")
+	}
+	// the other stream has no configuration of its own: the server-wide default decides
+	if q := srv.metadata.GetPartition("b", 0); q != nil {
+		vAssert((q.encryptionHandler != nil) == def, "a stream without a setting of its own follows the server-wide default")
+		vCover("second-stream")
+	}
+	vCover("done")
+}
+
+// vTravel: stream "a" is created with configuration cfg on a server prepared
+// by prep, and its partition object then comes into being along one of four
+// ways (chosen here): created by CREATE_STREAM, rebuilt by pause + resume,
+// rebuilt from a snapshot taken before or after a second stream "b" (without
+// configuration) was created, the entries after the snapshot being replayed.
+// Returns the server that finally holds the partitions.
+func vTravel(cfg *proto.StreamConfig, prep func(*Server)) *Server {
+	dir := vTempDir()
+	a := vMkFSMServer(dir)
+	prep(a)
+	vRaft = &vRaftStand{logs: map[uint64]*raft.Log{}, first: 0}
 	ops := []*proto.RaftLog{{Op: proto.Op_CREATE_STREAM, CreateStreamOp: &proto.CreateStreamOp{Stream: &proto.Stream{
 		Name: "a", Subject: "subj.a", CreationTimestamp: 1000, Config: cfg,
 		Partitions: []*proto.Partition{{Stream: "a", Subject: "subj.a", Id: 0, ReplicationFactor: 3,
@@ -88,7 +115,7 @@ func VerifC17FlagTravels() {
 		vAssert(a.metadata.Reset() == nil, "the server stops")
 		vKillOthers()
 		srv = vMkFSMServer(dir)
-		srv.config.Streams.Encryption = def
+		prep(srv)
 		vAssert(srv.Restore(vReadCloser{bytes.NewReader(snap)}) == nil, "Restore succeeds")
 		j := 1
 		if way == 3 {
@@ -107,21 +134,5 @@ func VerifC17FlagTravels() {
 		}
 		vCover("restored-from-snapshot")
 	}
-	p := srv.metadata.GetPartition("a", 0)
-	vAssert(p != nil, "the partition exists")
-	if p == nil {
-		return
-	}
-	if want {
-		vAssert(p.encryptionHandler != nil, "the partition of an encrypted stream (by its own configuration or by the server-wide default) seals what it stores")
-		vAssert(made > 0, "the encryption handler was built")
-	} else {
-		vAssert(p.encryptionHandler == nil, "the partition of a stream that is not encrypted stores values as published")
-	}
-	// the other stream has no configuration of its own: the server-wide default decides
-	if q := srv.metadata.GetPartition("b", 0); q != nil {
-		vAssert((q.encryptionHandler != nil) == def, "a stream without a setting of its own follows the server-wide default")
-		vCover("second-stream")
-	}
-	vCover("done")
+	return srv
 }
